@@ -269,6 +269,7 @@ impl Middleware<St, Act> for SMw {
 pub struct SSub {
     w: Arc<World>,
     sub: SubId,
+    chained: std::sync::atomic::AtomicBool,
 }
 impl Subscriber<St, Act> for SSub {
     fn on_notify(&self, st: &St, a: &Act) {
@@ -303,6 +304,12 @@ impl Subscriber<St, Act> for SSub {
     }
     fn on_unsubscribe(&self) {
         self.w.ctx.ev(Ev::Unsub { sub: self.sub });
+        let spec = self.w.scn().sub(self.sub);
+        if !spec.on_unsub_ops.is_empty() && !self.chained.swap(true, std::sync::atomic::Ordering::SeqCst) {
+            for (i, op) in spec.on_unsub_ops.iter().enumerate() {
+                exec_op(&self.w, 2000 + self.sub, i as u32, op);
+            }
+        }
     }
 }
 
@@ -485,7 +492,7 @@ fn do_op(w: &Arc<World>, op: &Op) -> Res {
                 SubKind::Direct => {
                     let obj = slock(&w.sub_objs)
                         .entry(*sub)
-                        .or_insert_with(|| Arc::new(SSub { w: w.clone(), sub: *sub }))
+                        .or_insert_with(|| Arc::new(SSub { w: w.clone(), sub: *sub, chained: Default::default() }))
                         .clone();
                     if spec.via_trait {
                         <TStore as Store<St, Act>>::add_subscriber(&*s, obj)
@@ -514,7 +521,7 @@ fn do_op(w: &Arc<World>, op: &Op) -> Res {
                     s.add_subscriber(obj)
                 }
                 SubKind::Channeled { cap, pol: p, default_ctor } => {
-                    let obj = Box::new(SSub { w: w.clone(), sub: *sub });
+                    let obj = Box::new(SSub { w: w.clone(), sub: *sub, chained: Default::default() });
                     let r = match (default_ctor, spec.via_trait) {
                         (true, false) => s.subscribed(obj),
                         (true, true) => <TStore as Store<St, Act>>::subscribed(&*s, obj),
